@@ -151,18 +151,22 @@ static std::string gTmpDir = ".";
 #include <xercesc/sax/EntityResolver.hpp>
 class ExtResolver : public EntityResolver {
 public:
-    std::vector<unsigned char> fData;
+    std::vector<unsigned char> fData, fData2;
     ChunkSpec fChunks;
     bool fChunked = false;
-    InputSource* resolveEntity(const XMLCh* const, const XMLCh* const) {
+    // a system id containing the digit '2' is served the second external byte string (<ext2spec>)
+    InputSource* resolveEntity(const XMLCh* const, const XMLCh* const sysId) {
         static const XMLByte none[1] = {0};
-        if (fChunked) return new ChunkSource(fData, fChunks, "ext");
-        return new MemBufInputSource(fData.empty() ? none : fData.data(), fData.size(), "ext", false);
+        bool second = false;
+        for (const XMLCh* q = sysId; q && *q; ++q) if (*q == '2') second = true;
+        const std::vector<unsigned char>& d = second ? fData2 : fData;
+        if (fChunked) return new ChunkSource(d, fChunks, second ? "ext2" : "ext");
+        return new MemBufInputSource(d.empty() ? none : d.data(), d.size(), second ? "ext2" : "ext", false);
     }
 };
 
 static std::string doDoc(const std::vector<std::string>& a) {
-    // doc <cfg> <src> <chunks> <docspec> [<extspec>]   cfg: scanner letter I/W/D/S, ns 0/1, optional 'f' = full dump;
+    // doc <cfg> <src> <chunks> <docspec> [<extspec> [<ext2spec>]]   cfg: scanner letter I/W/D/S, ns 0/1, optional 'f' = full dump;
     // with <extspec>: external DTD loading on, every external id is served these bytes (chunked like the document)
     const std::string& cfg = a[1];
     std::vector<unsigned char> data = expandDoc(a[4]);
@@ -177,6 +181,7 @@ static std::string doDoc(const std::vector<std::string>& a) {
     ExtResolver res;
     if (a.size() >= 6) {
         res.fData = expandDoc(a[5]);
+        if (a.size() >= 7) res.fData2 = expandDoc(a[6]);
         res.fChunks = parseChunks(a[3]);
         res.fChunked = (a[2] == "chunk");
         p->setFeature(XMLUni::fgXercesLoadExternalDTD, true);
@@ -187,7 +192,7 @@ static std::string doDoc(const std::vector<std::string>& a) {
     DumpHandler h;
     p->setContentHandler(&h);
     p->setErrorHandler(&h);
-    p->setLexicalHandler(&h);
+    p->setLexicalHandler(&h); p->setDeclarationHandler(&h);
     std::string exc = "-";
     std::unique_ptr<InputSource> src;
     std::string tmp;
@@ -237,7 +242,7 @@ int main(int argc, char** argv) {
         p->setFeature(XMLUni::fgSAX2CoreValidation, false);
         p->setFeature(XMLUni::fgXercesLoadExternalDTD, false);
         DumpHandler h;
-        p->setContentHandler(&h); p->setErrorHandler(&h); p->setLexicalHandler(&h);
+        p->setContentHandler(&h); p->setErrorHandler(&h); p->setLexicalHandler(&h); p->setDeclarationHandler(&h);
         std::string exc = "-";
         try { StdInInputSource src; p->parse(src); }
         catch (const XMLException& e) { exc = "XMLException:" + excName(e); }
@@ -256,7 +261,7 @@ int main(int argc, char** argv) {
         std::vector<std::string> a = splitWs(line);
         std::string r = "bad-request";
         if (a.size() >= 6 && a[0] == "rd") r = doReader(a);
-        else if ((a.size() == 5 || a.size() == 6) && a[0] == "doc") r = doDoc(a);
+        else if (a.size() >= 5 && a.size() <= 7 && a[0] == "doc") r = doDoc(a);
         std::cout << r << "\n";
     }
     std::cout.flush();
